@@ -302,6 +302,12 @@ fn job_workload(master: u64, job: u64, tier: Tier) -> Workload {
             members: Vec::new(),
         };
     }
+    if job % 16 == 11 {
+        return Workload {
+            file: workload::gen_cut_trailer_file(&mut rng),
+            members: Vec::new(),
+        };
+    }
     let sc = match tier {
         Tier::Quick => {
             if job % 8 == 7 {
